@@ -451,6 +451,46 @@ func (c *Ctx) securityStates(rule, tname string, efd, dfd *ast.FuncDecl, rawEnc,
 			}
 		}
 	})
+	// one fresh padded map per requirement, on both sides
+	for _, side := range []*ast.FuncDecl{efd, dfd} {
+		fresh, loops := true, 0
+		defs := c.localDefs(side)
+		ast.Inspect(side.Body, func(n ast.Node) bool {
+			rs, ok := n.(*ast.RangeStmt)
+			if !ok {
+				return true
+			}
+			p, ok := c.apath(rs.X)
+			if !ok || lastStep(p) != "Security" {
+				return true
+			}
+			ast.Inspect(rs.Body, func(m ast.Node) bool {
+				call, ok := m.(*ast.CallExpr)
+				if !ok || !c.isBuiltin(call, "append") || len(call.Args) != 2 {
+					return true
+				}
+				id, ok := unparen(call.Args[1]).(*ast.Ident)
+				if !ok {
+					return true
+				}
+				if _, isMap := c.objOf(id).Type().Underlying().(*types.Map); !isMap {
+					return true
+				}
+				loops++
+				for _, d := range defs[c.objOf(id)] {
+					if d == nil || d.Pos() < rs.Body.Pos() || d.End() > rs.Body.End() {
+						fresh = false
+					}
+				}
+				return true
+			})
+			return true
+		})
+		if loops > 0 {
+			c.ob(rule, tname+":security:fresh-map("+side.Name.Name+")", side.Pos(), fresh,
+				"the per-requirement map is created outside the loop over the requirements: every entry aliases one map, so alternative requirements come back merged")
+		}
+	}
 	c.ob(rule, tname+":security:nil-state", efd.Pos(), nilBranch, "absent security must be encoded without raising SecurityIsEmpty")
 	c.ob(rule, tname+":security:empty-state", efd.Pos(), emptyFlag && emptyClears, "an empty (non-nil) security list must raise SecurityIsEmpty under len(Security)==0 (gob itself drops the empty slice)")
 	// decode side: a switch with case raw.SecurityIsEmpty -> non-nil empty literal; case len(raw.Alias.Security)==0 -> nil; default -> rebuild from raw.Security
@@ -616,6 +656,57 @@ func ruleRefOpaque(c *Ctx) {
 			return true
 		})
 	}
+	// stores through the *url.URL handed out by GetURL(): it is shared by every copy of the Ref
+	var urlWrites []string
+	for _, fd := range c.allFuncDecls() {
+		if fd.Body == nil {
+			continue
+		}
+		defs := c.localDefs(fd)
+		ast.Inspect(fd.Body, func(n ast.Node) bool {
+			as, ok := n.(*ast.AssignStmt)
+			if !ok {
+				return true
+			}
+			for _, l := range as.Lhs {
+				p, ok := c.apath(l)
+				if !ok || len(p.Steps) == 0 {
+					continue
+				}
+				if _, isPtr := types.Unalias(p.Root.Type()).(*types.Pointer); !isPtr {
+					continue
+				}
+				for _, d := range defs[p.Root] {
+					call, ok := unparen(d).(*ast.CallExpr)
+					if !ok {
+						continue
+					}
+					se, ok := unparen(call.Fun).(*ast.SelectorExpr)
+					if !ok || se.Sel.Name != "GetURL" {
+						continue
+					}
+					// fine when the Ref is a fresh local (result of normalizeRef / MustCreateRef / NewRef)
+					fresh := false
+					if id, ok := unparen(se.X).(*ast.Ident); ok {
+						ds := defs[c.objOf(id)]
+						fresh = len(ds) > 0
+						for _, rd := range ds {
+							rc, ok := unparen(rd).(*ast.CallExpr)
+							if !ok || !(c.isSpecFunc(rc, "normalizeRef") || c.isSpecFunc(rc, "MustCreateRef") || c.isSpecFunc(rc, "NewRef")) {
+								fresh = false
+							}
+						}
+					}
+					if !fresh {
+						urlWrites = append(urlWrites, c.funcName(fd)+":"+exprString(l))
+					}
+				}
+			}
+			return true
+		})
+	}
+	sort.Strings(urlWrites)
+	c.ob(rule, "no-write-through-shared-url", token.NoPos, len(urlWrites) == 0, fmt.Sprintf("%v writes through the *url.URL of a reference that is not a fresh local: every copy of that Ref changes (its text no longer matches its classification flags)", urlWrites))
 	sort.Strings(stores)
 	c.ob(rule, "no-flag-stores", token.NoPos, len(stores) == 0, fmt.Sprintf("classification flags of jsonreference.Ref are written by %v: classification is no longer a function of the parsed text", stores))
 	c.ob(rule, "no-ref-literals", token.NoPos, len(lits) == 0, fmt.Sprintf("jsonreference.Ref built by literal in %v instead of by parsing", lits))
